@@ -12,6 +12,7 @@ import (
 	sdk "github.com/cosmos/cosmos-sdk/types"
 
 	assettypes "github.com/comdex-official/comdex/x/asset/types"
+	"github.com/comdex-official/comdex/x/liquidity/amm"
 	liqtypes "github.com/comdex-official/comdex/x/liquidity/types"
 	markettypes "github.com/comdex-official/comdex/x/market/types"
 
@@ -28,6 +29,7 @@ type poolCfg struct {
 	Base, Quote int      // indexes into assets
 	Rx, Ry      *big.Int // initial deposit: quote (x), base (y)
 	DonQ, DonB  *big.Int // donation to the reserve after creation (moves rx/ry away from the pool coin supply)
+	RangedOn    int      // > 0: a ranged pool on the pair of pool RangedOn (Base/Quote are taken from it): two pools share one fee collector
 }
 
 type fxCfg struct {
@@ -35,6 +37,7 @@ type fxCfg struct {
 	Pools   []poolCfg
 	Farmers []string
 	MinPs   *big.Int // MinInitialPoolCoinSupply
+	Distr   string   // SwapFeeDistrDenom of the app when the pools (and their swap-fee gauges) are created; "" = default
 	Give    *big.Int // pool coins handed to every farmer (per pool)
 	Rewards []string // reward denoms funded to the gauge creator "gc" and to farmers
 	RewAmt  *big.Int
@@ -125,16 +128,35 @@ func newFixture(cfg fxCfg) (*sim.Env, *fixture) {
 	gp.PoolCreationFee = sdk.NewCoins()
 	gp.MinInitialDepositAmount = sdkmath.NewInt(1)
 	gp.MinInitialPoolCoinSupply = sdkmath.NewIntFromBigInt(cfg.MinPs)
+	if cfg.Distr != "" {
+		gp.SwapFeeDistrDenom = cfg.Distr
+	}
 	e.App.LiquidityKeeper.SetGenericParams(e.Ctx, gp)
 
 	lp := sim.Addr("lp")
-	for i, p := range cfg.Pools {
-		mustOK(e.Deliver(liqtypes.NewMsgCreatePair(fx.app, lp, cfg.Assets[p.Base].Denom, cfg.Assets[p.Quote].Denom)), "create pair")
-		pairs := e.App.LiquidityKeeper.GetAllPairs(e.Ctx, fx.app)
-		pair := pairs[len(pairs)-1]
+	for i := range cfg.Pools {
+		p := &cfg.Pools[i]
+		var pair liqtypes.Pair
+		if p.RangedOn > 0 {
+			p.Base, p.Quote = cfg.Pools[p.RangedOn-1].Base, cfg.Pools[p.RangedOn-1].Quote
+			pair = fx.pairs[p.RangedOn-1]
+		} else {
+			mustOK(e.Deliver(liqtypes.NewMsgCreatePair(fx.app, lp, cfg.Assets[p.Base].Denom, cfg.Assets[p.Quote].Denom)), "create pair")
+			pairs := e.App.LiquidityKeeper.GetAllPairs(e.Ctx, fx.app)
+			pair = pairs[len(pairs)-1]
+		}
 		fx.pairs = append(fx.pairs, pair)
 		dep := sdk.NewCoins(coin(cfg.Assets[p.Quote].Denom, p.Rx), coin(cfg.Assets[p.Base].Denom, p.Ry))
-		mustOK(e.Deliver(liqtypes.NewMsgCreatePool(fx.app, lp, pair.Id, dep)), "create pool")
+		if p.RangedOn > 0 {
+			gp, _ := e.App.LiquidityKeeper.GetGenericParams(e.Ctx, fx.app)
+			tp := int(gp.TickPrecision)
+			p0 := amm.PriceToDownTick(sdkmath.LegacyNewDecFromBigInt(p.Rx).Quo(sdkmath.LegacyNewDecFromBigInt(p.Ry)), tp)
+			lo := amm.PriceToDownTick(p0.QuoInt64(2), tp)
+			hi := amm.PriceToDownTick(p0.MulInt64(2), tp)
+			mustOK(e.Deliver(liqtypes.NewMsgCreateRangedPool(fx.app, lp, pair.Id, dep, lo, hi, p0)), "create ranged pool")
+		} else {
+			mustOK(e.Deliver(liqtypes.NewMsgCreatePool(fx.app, lp, pair.Id, dep)), "create pool")
+		}
 		pools := e.App.LiquidityKeeper.GetAllPools(e.Ctx, fx.app)
 		pool := pools[len(pools)-1]
 		if pool.Id != uint64(i+1) {
@@ -171,6 +193,21 @@ func newFixture(cfg fxCfg) (*sim.Env, *fixture) {
 func (fx *fixture) setPrice(e *sim.Env, ai int, twa uint64, active bool) {
 	e.App.MarketKeeper.SetTwa(e.Ctx, markettypes.TimeWeightedAverage{AssetID: fx.assetID[ai], ScriptID: 12, Twa: twa,
 		CurrentIndex: 0, IsPriceActive: active, PriceValue: []uint64{twa}})
+}
+
+// setGov writes the two liquidity generic params the swap-fee gauges read (governance-style configuration).
+func (fx *fixture) setGov(e *sim.Env, distr string, burnPermille int64) {
+	gp, err := e.App.LiquidityKeeper.GetGenericParams(e.Ctx, fx.app)
+	if err != nil {
+		panic(err)
+	}
+	if distr != "" {
+		gp.SwapFeeDistrDenom = distr
+	}
+	if burnPermille >= 0 {
+		gp.SwapFeeBurnRate = sdkmath.LegacyNewDecWithPrec(burnPermille, 3)
+	}
+	e.App.LiquidityKeeper.SetGenericParams(e.Ctx, gp)
 }
 
 // ---- block stepping split in two halves so that both are logged --------------------------------------------
